@@ -16,7 +16,6 @@ package rfc3961
 //@   trusted_ensures 2 not discharged: ZeroPad appends the padding in place when the caller's slice has spare capacity, so the clause needs key and data not to share a backing array (true at every call site in the library, where the key is freshly derived, but slice freshness is not tracked through the etype interface)
 //@ func crypto/rfc3961.DES3DecryptData(key, data, e) (pt, err)
 //@   pure
-//@   trusted_frame returned slices are not tracked as fresh; in-place append into spare capacity cannot be excluded
 //@   requires tagof(e) == typeid("crypto.Des3CbcSha1Kd")
 //@   ensures err == nil <==> et_decok(tagof(e), len(key), len(data))
 //@   ensures err == nil ==> len(pt) == len(data)
@@ -24,7 +23,6 @@ package rfc3961
 //@   ensures err != nil ==> len(pt) == 0
 //@ func crypto/rfc3961.DES3DecryptMessage(key, ciphertext, usage, e) (pt, err)
 //@   pure
-//@   trusted_frame returned slices are not tracked as fresh; in-place append into spare capacity cannot be excluded
 //@   requires tagof(e) == typeid("crypto.Des3CbcSha1Kd")
 //@   ensures err != nil ==> len(pt) == 0
 //@   ensures err == nil ==> dec_ok_3961(tagof(e), bytes(key), usage, bytes(ciphertext))
@@ -36,7 +34,6 @@ package rfc3961
 //@   ensures err == nil ==> len(lastRandom) == et_confounder(tagof(e)) && bytes(ct) == enc_3961(tagof(e), old(bytes(key)), usage, zpad8(seqcat(lastRandom, old(bytes(message))), 8 + len(message)))
 //@ func crypto/rfc3961.DeriveRandom(key, usage, e) (r, err)
 //@   pure
-//@   trusted_frame returned slices are not tracked as fresh; in-place append into spare capacity cannot be excluded
 //@   requires len(usage) > 0
 //@   requires et_known(tagof(e))
 //@   ensures err == nil ==> len(r) == et_seedbits(tagof(e)) / 8
@@ -45,7 +42,6 @@ package rfc3961
 //@   loop 1 invariant 0 <= i && i <= len(out) && len(K) > 0 && et_encok(tagof(e), len(key), len(K))
 //@ func crypto/rfc3961.DeriveKey(protocolKey, usage, e) (k, err)
 //@   pure
-//@   trusted_frame returned slices are not tracked as fresh; in-place append into spare capacity cannot be excluded
 //@   requires len(usage) > 0
 //@   requires tagof(e) == typeid("crypto.Des3CbcSha1Kd") || tagof(e) == typeid("crypto.Aes128CtsHmacSha96") || tagof(e) == typeid("crypto.Aes256CtsHmacSha96")
 //@   ensures err == nil ==> bytes(k) == et_dk(tagof(e), bytes(protocolKey), bytes(usage))
@@ -59,16 +55,13 @@ package rfc3961
 //@ func crypto/rfc3961.DES3StringToKey(secret, salt, e) (k, err)
 //@   pure
 //@   requires len(secret) + len(salt) > 0
-//@   trusted_frame returned slices are not tracked as fresh; in-place append into spare capacity cannot be excluded
 //@   requires tagof(e) == typeid("crypto.Des3CbcSha1Kd")
 //@   ensures err == nil ==> bytes(k) == s2k_des3(tagof(e), bytes(secret), bytes(salt))
 //@ func crypto/rfc3961.PseudoRandom(key, b, e) (r, err)
 //@   pure
-//@   trusted_frame returned slices are not tracked as fresh; in-place append into spare capacity cannot be excluded
 //@   requires et_known(tagof(e))
 //@ func crypto/rfc3961.stretch56Bits(b) (d)
 //@   pure
-//@   trusted_frame returned slices are not tracked as fresh; in-place append into spare capacity cannot be excluded
 //@   requires len(b) == 7
 //@   ensures len(d) == 8
 //@ func crypto/rfc3961.fixWeakKey(b) (r)
@@ -77,11 +70,9 @@ package rfc3961
 //@   ensures r == b
 //@ func crypto/rfc3961.weak(b) (r)
 //@   pure
-//@   trusted_frame returned slices are not tracked as fresh; in-place append into spare capacity cannot be excluded
 //@ func crypto/rfc3961.Nfold(m, n) (r)
 //@   trusted nonlinear (lcm/gcd) index arithmetic is outside what the solvers decide; bounded stand-in in C08
 //@   pure
-//@   trusted_frame returned slices are not tracked as fresh; in-place append into spare capacity cannot be excluded
 //@   requires len(m) > 0 && n > 0 && n % 8 == 0
 //@   ensures len(r) == n / 8
 //@   ensures bytes(r) == nfold(bytes(m), n)
